@@ -127,7 +127,7 @@ func runRuntime(prop, tier string) int {
 				if len(skip) > 0 {
 					args = append(args, "skip="+strings.Join(skip, ","))
 				}
-				rr := rt.Run(b.Bins["plain"], args, nil, 20*time.Minute)
+				rr := rt.Run(b.Bins["plain"], args, nil, 6*time.Minute)
 				dead := strings.Contains(rr.Stderr, "all goroutines are asleep - deadlock!")
 				handleRun(run, prop, b, rr, agg, "seq", shapes, &dead)
 				if !dead || rr.LastMock == "" {
